@@ -996,7 +996,7 @@ def run(run):
 
     # binding B
     maxar = 2 if quick else 3
-    cap = 200 if quick else 1500
+    cap = len(POOL_SRC) ** 2 if quick else 1500      # quick: every pair of pool values
     with ctx.Pool(NPROC) as pool:
         funcs, events, meta, table, stats = sweep(run, rng, maxar, cap, pool)
     lap("sweep_B")
@@ -1004,7 +1004,8 @@ def run(run):
     lap("validate_B")
     run.cov["phase_wall_s"] = phase
     ncalls = sum(1 for e in events if e["op"] == "call")
-    k = next(i for i, e in enumerate(events) if e["op"] == "call" and e["fn"] == "append" and e["args"] == [2, 11])
+    k = next((i for i, e in enumerate(events) if e["op"] == "call" and e["fn"] == "append" and len(e["args"]) == 2
+              and e["args"][0] == 2), next(i for i, e in enumerate(events) if e["op"] == "call"))
     run.sample({"B-event": events[k], "B-source": meta[k]["src"],
                 "rendered_after": [table[i - 1] for i in events[k]["post"]]})
     run.sample({"B-functions": len(funcs), "by_environment": _count_by(funcs), "outcomes": stats})
